@@ -57,7 +57,7 @@ class UUBlock(nn.Module):
 @st.composite
 def cases(draw, tier):
     family = draw(st.sampled_from(["program", "program", "program", "uu"]))
-    c = dict(family=family, seed=draw(st.integers(0, 10**6)), calls=draw(st.integers(1, 3)))
+    c = dict(family=family, seed=draw(st.integers(0, 10**6)), calls=draw(st.integers(1, 3)), call_intermediates=draw(st.booleans()))
     q = draw(st.sampled_from([None] + list(QUANTS) * 2))
     if family == "program":
         c["prog"] = draw(dsl.unit_programs(max_ops=10))
@@ -153,7 +153,7 @@ def run(c) -> CaseResult:
     torch.manual_seed(c["seed"])
     chain = list(c["chain"])
     full = chain + ([c["end"]] if c["end"] else [])
-    res.labels += [f"family={c['family']}", "chain=" + ">".join(full), f"calls={c['calls']}"]
+    res.labels += [f"family={c['family']}", "chain=" + ">".join(full), f"calls={c['calls']}"] + (["intermediates-called"] if c.get("call_intermediates") else [])
     if c["family"] == "program":
         prog = c["prog"]
         m0 = dsl.build_module(prog, c["seed"])
@@ -171,6 +171,8 @@ def run(c) -> CaseResult:
     mods = [m0]
     try:
         for t in full:
+            if c.get("call_intermediates") and len(mods) > 1:
+                run_once(mods[-1], inputs)  # the intermediate module is used (compiled, cached) before it is transformed again
             mods.append(apply(t, mods[-1]))
         final = mods[-1]
         results = [run_once(final, inputs) for _ in range(c["calls"])]
@@ -223,8 +225,10 @@ def run(c) -> CaseResult:
             gr = torch.autograd.grad(yr, [fr[k] for k in FLOAT_INPUTS if k in fr] + list(P.values()), allow_unused=True)
         ref = (yr.detach(), dict(zip(["input:" + k for k in FLOAT_INPUTS if k in fr] + list(P.keys()), gr)))
         lossy_sr = qname in ("fp8", "e4m3-sr3", "e5m2-nearest")
-        d = same_result(results[0], ref, tol=None if lossy_sr or qname == "lossless" else 2e-5)
-        if d and c["end"] != "compile":
+        # compared on the chain *without* its terminating track_scales / compile (those are covered by the end-transform clause)
+        base_run = run_once(mods[len(chain)], inputs) if c["end"] else results[0]
+        d = same_result(base_run, ref, tol=None if lossy_sr or qname == "lossless" else 2e-5)
+        if d:
             res.fail("C17.semantics:" + ">".join(sorted(set(chain), key=lambda t: t != "unit_scale")),
                      f"{d} of chain {'>'.join(full)} differs from 'each transform applied exactly once' (reference interpreter)\n{src}")
     else:
@@ -267,7 +271,7 @@ CHECK = Check(
     parts=[Part("chains", run, strategy=cases, budget={"quick": 100, "thorough": 2000})],
     rule=("Hypothesis histories: a module (DSL program over torch ops, or a block built from unit-scaled layers) x a chain using unit_scale at most "
           "once and at most one format simulation (simulate_fp8, lossless E8M23, E5M2-nearest, stochastic E4M3 with srbits=3; random source pinned) "
-          "in either order, optionally ended by track_scales (or compile, thorough only, unit_scale-only chains), followed by 1-3 "
+          "in either order (each intermediate module optionally called before it is transformed again), optionally ended by track_scales (or compile, thorough only, unit_scale-only chains), followed by 1-3 "
           "forward/backward calls. Invariants: original state_dict / attributes / outputs / gradients unchanged; no parameter or buffer storage "
           "shared between chain elements; repeated calls bit-equal; backends contain each transform exactly once with unit scaling before "
           "quantisation; result equals the reference interpreter applying each transform exactly once (bit-equal with quantisation, 2e-5 "
